@@ -186,6 +186,7 @@ func runSeq(rep *vh.Report, env vh.Env, stacks []*stack, n, only int) {
 		if ep.method == "POST" {
 			idPlace, secPlace = pick(r, "form", "query"), pick(r, "form", "header")
 		}
+		secPlace = st.secPlace(secPlace, ep.method)
 		A := st.mkSubject(r, str("s%da%s", i, randFrom(r, "abcdefghijklmnopqrstuvwxyz", 5)))
 		defer A.cleanup()
 		kc := &seqCase{Index: i, Stack: si, Scenario: scenario, Endpoint: ep.name, PauseMs: pauseMs}
@@ -212,9 +213,10 @@ func runSeq(rep *vh.Report, env vh.Env, stacks []*stack, n, only int) {
 					ids[k].Place = "query"
 				}
 				for k := range secrets {
-					secrets[k].Place = "header"
+					secrets[k].Place = st.secPlace("header", "GET")
 				}
 			}
+			secrets = normalise(secrets, "query")
 			idOK := presentedRight(ids, as.ClientID, idPlaces...)
 			secOK := presentedRight(secrets, as.ClientSecret, secretPlaces...)
 			authorised := idOK && secOK
@@ -251,7 +253,7 @@ func runSeq(rep *vh.Report, env vh.Env, stacks []*stack, n, only int) {
 			kc.Steps = append(kc.Steps, rec)
 			snapshot := *kc
 			snapshot.Steps = append([]seqStep(nil), kc.Steps...)
-			judgeGate(rep, "c08-seq", i, e.name, idOK, secOK, o, via, snapshot)
+			judgeGate(rep, "c08-seq", i, e.name, idOK, secOK, o, via, snapshot) // no piece suffix here: c08-piece owns that class, this stream's class is the history
 			if o.rs.Status == 0 {
 				return o
 			}
